@@ -12,6 +12,12 @@ def main(path):
         rec = json.load(f)
     common.load_repo()
     mod = importlib.import_module(rec["module"])
+    from .symnum import engine as E
+    for sp in rec.get("chain", []):       # configurations that ran earlier in the same process: replay their calls first
+        try:
+            E.run_plain(mod.build(sp), {}, "plain")
+        except Exception:  # noqa: BLE001
+            pass
     case = mod.build(rec["spec"])
     v = rec["violation"]
     rp = getattr(case, "replay", None)
